@@ -12,10 +12,12 @@ from ..cfg import CFG, cond_strings
 from ..paths import path_variants
 from ..tutil import (bound_args, callee_of, concat_parts, fuse_comps,
                      simp)
-from ..core import AnalysisError, const_value
+from ..astutil import cond_terms, inside
+from ..core import AnalysisError, const_value, walk_own
+from .c05 import subset_test
 from ..defuse import DefUse, Terms, show, specialise, walk_term
 from ..inline import inline_nested_closures
-from ..tutil import TTUnknown, tt_eval
+from ..tutil import TTUnknown, np_call, tt_eval
 
 EXPLANATION = (
     "Static analysis of parsers.pin.read_percolator / "
@@ -682,8 +684,12 @@ def _read_percolator(ctx, f):
 
 
 def _nan_scan(ctx, f):
+    prog = ctx.prog
     p_reader, p_col, p_spec, p_list = f.params
-    loops = [n for n in f.node.body if isinstance(n, ast.For)]
+    du = DefUse(prog, f)
+    T = Terms(du, phi_vars=True)
+    cfg = CFG(f.node)
+    loops = [n for n in walk_own(f.node) if isinstance(n, ast.For)]
     ctx.require(len(loops) == 1, f"{f.qual}: row-chunk loop not found")
     lp = loops[0]
     early = [n for n in ast.walk(lp) if isinstance(n, (ast.Break,
@@ -695,44 +701,132 @@ def _nan_scan(ctx, f):
               "columns of the remaining rows are never collected, so the "
               "dataset has fewer entries than the file has rows, and NaNs "
               "further down are missed", node=lp)
-    fi = [n for n in f.node.body if isinstance(n, ast.Assign)
-          and ast.unparse(n.targets[0]) == "file_iterator"]
-    ok = len(fi) == 1 and ast.unparse(fi[0].value).replace("\n", "") \
-        .replace(" ", "") == (
-        f"{p_reader}.get_chunked_data_iterator(chunk_size="
-        f"CHUNK_SIZE_ROWS_FOR_DROP_COLUMNS,columns={p_col})")
+    it = T.of(lp.iter)
+    if it[0] == "call" and it[1] == "builtins.enumerate" and it[2]:
+        it = it[2][0]
+    ok = (it[0] == "mcall" and it[1] == ("param", p_reader)
+          and it[2] == "get_chunked_data_iterator")
+    if ok:
+        kw = dict(zip(("chunk_size", "columns"), it[3]))
+        kw.update(dict(it[4]))
+        ok = kw.get("columns") == ("param", p_col) and kw.get(
+            "chunk_size") == ("name", "mokapot.constants."
+                              "CHUNK_SIZE_ROWS_FOR_DROP_COLUMNS")
     ctx.check(ok, "C10d-row-chunks-of-this-column-chunk", f,
               "rows are streamed for exactly this column chunk",
-              f"{[ast.unparse(x.value)[:100] for x in fi]}", node=f.node)
-    cfg = CFG(f.node)
+              f"row loop iterates {show(it, 160)}", node=lp)
+    ROW = ("elem", it)
+
+    def root(t):
+        """the object a frame term denotes, in-place edits forgotten"""
+        while True:
+            if t[0] == "mut":
+                t = t[1]
+            elif t[0] == "var":
+                inits = [T.of_def(d) for d in du.defs if d.name == t[1]
+                         and d.uid in t[2] and d.kind not in (
+                             "mut", "store", "augstore", "delitem")]
+                if len(inits) != 1:
+                    return t
+                t = inits[0]
+            elif t[0] == "phi":
+                rs = {root(x) for x in t[1]}
+                if len(rs) != 1:
+                    return t
+                t = next(iter(rs))
+            else:
+                return t
+
     app = [n for n in ast.walk(lp) if isinstance(n, ast.Call)
-           and ast.unparse(n.func) == f"{p_list}.append"]
-    ok_a = len(app) == 1 and ast.unparse(app[0].args[0]) == \
-        f"feature[{p_spec}]"
-    if ok_a:
-        gs = [ast.unparse(g[0]) for g in cfg.guards(app[0]) if g[1]]
-        ok_a = gs == [f"set({p_spec}) <= set({p_col})"]
+           and isinstance(n.func, ast.Attribute)
+           and n.func.attr == "append" and isinstance(
+               n.func.value, ast.Name) and n.func.value.id == p_list]
+    ok_a = False
+    if len(app) == 1 and len(app[0].args) == 1:
+        at = T.of(app[0].args[0])
+        conds = [(t, o) for t, o in cond_terms(cfg, T, app[0])
+                 if inside_expr(cfg, t, lp)]
+        ok_a = (at[0] == "sub" and root(at[1]) == ROW
+                and at[2] == ("param", p_spec)
+                and len(cond_terms(cfg, T, app[0])) == 1
+                and subset_test(*cond_terms(cfg, T, app[0])[0],
+                                p_spec, p_col))
     ctx.check(ok_a, "C10d-identifier-collected-per-row-chunk", f,
               "the chunk holding all identifier columns contributes them "
               "for every row chunk",
-              f"{[ast.unparse(a)[:60] for a in app]}", node=lp)
-    acc = [n for n in lp.body if isinstance(n, ast.Assign)
-           and ast.unparse(n.targets[0]) == "na_mask"]
-    ok_m = len(acc) == 1 and "feature.isna().any(axis=0)" in ast.unparse(
-        acc[0].value) and "na_mask" in ast.unparse(acc[0].value) and not \
-        cfg.guards(acc[0])[:-0 or None] or False
-    ok_m = len(acc) == 1 and "feature.isna().any(axis=0)" in ast.unparse(
-        acc[0].value) and "[na_mask," in ast.unparse(acc[0].value).replace(
-            " ", "")
+              f"{[ast.unparse(a)[:60] for a in app]} under "
+              f"{[cfg.conditions(a) for a in app]}", node=lp)
+    # per-column NaN flags, accumulated over the row chunks
+    acc = []
+    for d in du.defs:
+        if d.kind == "assign" and d.node is not None and inside(
+                d.node, lp) and isinstance(d.node, ast.Assign):
+            t = T.of_def(d)
+            c = np_call(t)
+            if c and c[0] in ("concat", "pandas.concat") and c[1] and \
+                    c[1][0][0] == "list":
+                acc.append((d, c))
+    ok_m = False
+    VAR = None
+    if len(acc) == 1:
+        d, c = acc[0]
+        parts = c[1][0][1]
+        if len(parts) == 2 and parts[0][0] == "var" and \
+                parts[0][1] == d.name and c[2].get("ignore_index") == (
+                    "const", True):
+            VAR = d.name
+            x = np_call(parts[1])
+            if x and x[0].endswith("DataFrame") and x[1] and \
+                    x[1][0][0] == "list" and len(x[1][0][1]) == 1:
+                y = x[1][0][1][0]
+                ok_m = (y[0] == "mcall" and y[2] == "any"
+                        and dict(y[4]).get("axis", y[3][0] if y[3] else None)
+                        == ("const", 0)
+                        and y[1][0] == "mcall" and y[1][2] == "isna"
+                        and root(y[1][1]) == ROW)
+        ok_m = ok_m and not [x for x in cfg.necessary_conditions(d.node)
+                             if inside_expr(cfg, x[0], lp)]
     ctx.check(ok_m, "C10d-nan-accumulated", f,
-              "each row chunk's per-column NaN flags are accumulated",
-              f"{[ast.unparse(a.value)[:90] for a in acc]}", node=lp)
-    tail = [ast.unparse(s) for s in f.node.body if s.lineno > lp.lineno]
-    ok_t = "na_mask = na_mask.any(axis=0)" in tail and any(
-        "return list(na_mask[na_mask].index)" in t for t in tail)
+              "each row chunk's per-column NaN flags are accumulated, "
+              "unconditionally",
+              f"{[show(T.of_def(d), 200) for d, _c in acc]}", node=lp)
+    # report: columns whose flag is set in any row chunk
+    rets = [(r, t) for r, t in T.returns()]
+    ok_t = False
+    why = str([show(t, 120) for _r, t in rets])
+    if VAR is not None:
+        def is_var(t):
+            return t[0] == "var" and t[1] == VAR
+
+        def col_any(t):
+            return (t[0] == "mcall" and t[2] == "any" and is_var(t[1])
+                    and dict(t[4]).get("axis", t[3][0] if t[3] else None)
+                    == ("const", 0))
+
+        good = none = 0
+        for r, t in rets:
+            cs = cond_terms(cfg, T, r)
+            if t == ("const", None):
+                none += 1
+                continue
+            inner = t
+            if inner[0] == "call" and inner[1] == "builtins.list" and \
+                    len(inner[2]) == 1:
+                inner = inner[2][0]
+            if inner[0] == "attr" and inner[2] == "index" and \
+                    inner[1][0] == "sub" and col_any(inner[1][1]) and \
+                    inner[1][2] == inner[1][1] and len(cs) == 1 and \
+                    cs[0][1] is True and cs[0][0][0] == "mcall" and \
+                    cs[0][0][2] == "any" and cs[0][0][1] == inner[1][1]:
+                good += 1
+        ok_t = good == 1 and good + none == len(rets)
     ctx.check(ok_t, "C10d-nan-columns-reported", f,
               "a column is reported iff any row chunk saw a NaN in it",
-              f"{tail}", node=f.node)
+              why, node=f.node)
+
+
+def inside_expr(cfg, expr, root_stmt):
+    return any(x is expr for x in ast.walk(root_stmt))
 
 
 def _existence_checks(ctx, f):
